@@ -452,11 +452,18 @@ func teardownCase(name string, events []ev, syncerID, tgID int, tags []string) *
 				delete(peers, e.B)
 			}
 		case e.Kind == "s.loop.exit":
-			if e.B == 0 {
+			switch e.B {
+			case 0:
 				c.Op("loopexit accept", "ok")
-			} else {
-				c.Op("loopexit bg", "ok")
+			case 1:
+				c.Op("loopexit peer", "ok")
+			default:
+				c.Op("loopexit sync", "ok")
 			}
+		case e.Kind == "s.ingest.start":
+			c.Op("syncstart", "ok")
+		case e.Kind == "s.ingest.done":
+			c.Op("ingestdone", "ok")
 		case e.Kind == "s.run.recv":
 			c.Op("recv", "ok")
 		case e.Kind == "s.run.lclose":
